@@ -1,8 +1,84 @@
 import XmppModel.Prelude.Hex
-/-! Driver module for C18: `handle args` answers one protocol line (fields after the
-property id); `none` means the line is not understood (`!bad-op`). -/
-namespace XmppModel.Driver.C18
+import XmppModel.Model.Muc
+/-! Driver module for C18: replays an observed MUC history on the LTS of `Model/Muc.lean`.
 
-def handle (_args : List String) : Option String := none
+    C18 muc <addrs> <trace>      addrs: occupant address id of channel 0,1,… (`,`-joined)
+      J<c> Join starts (registered, request queued)   s<c> Join enters its select
+      A<a> / U<a> available / unavailable muc#user presence from address a processed
+      Ej<c> error reply to c's join presence taken   Xj<c> join context done and taken
+      R<c>ok | R<c>se | R<c>ce   Join returned nil / the stanza error / the context error
+      L<c> Leave starts   l<c> Leave enters its select   El<c> / Xl<c> error reply / cancel
+      D<c>ok | D<c>se | D<c>ce   Leave returned
+      I mediated invitation   N unrelated stanza   ?<bits> Joined() of every channel
+    answer: `joined=<bits> upres=<n> inv=<n>` or `bad@n:tok`
+-/
+namespace XmppModel.Driver.C18
+open XmppModel XmppModel.Muc
+
+def numOf (cs : List Char) : Option Nat := (String.ofList cs).toNat?
+
+def bits (n : Nat) (s : St) : String := String.ofList ((List.range n).map fun c => if s.joined c then '1' else '0')
+
+def chk (b : Bool) (s : St) : Option St := if b then some s else none
+
+def applyTok (addr : Nat → Nat) (n : Nat) (s : St) (tok : String) : Option St :=
+  let idx (r : List Char) : Option Nat := do let c ← numOf r; if c < n then some c else none
+  match tok.toList with
+  | 'J' :: r => do let c ← idx r; step addr s (.joinStart c)
+  | 's' :: r => do let _ ← idx r; some s   -- entering the select is not a model step
+  | 'A' :: r => do let a ← numOf r; step addr s (.avail a)
+  | 'U' :: r => do let a ← numOf r; step addr s (.unavail a)
+  | 'E' :: 'j' :: r => do let c ← idx r; step addr s (.joinError c)
+  | 'X' :: 'j' :: r => do let c ← idx r; step addr s (.joinCancel c)
+  | 'E' :: 'l' :: r => do let c ← idx r; chk (s.lpc c == .waiting) s
+  | 'X' :: 'l' :: r => do let c ← idx r; chk (s.lpc c == .waiting) s
+  | 'R' :: r =>
+    let str := String.ofList r
+    if str.endsWith "ok" then do
+      let c ← (str.dropEnd 2).toString.toNat?
+      chk (s.lastJoin c == some .ok && s.jpc c == .idle) s
+    else if str.endsWith "se" then do
+      let c ← (str.dropEnd 2).toString.toNat?
+      let s' ← step addr s (.joinCleanup c)
+      chk (s'.lastJoin c == some (.err .stanzaErr)) s'
+    else if str.endsWith "ce" then do
+      let c ← (str.dropEnd 2).toString.toNat?
+      let s' ← step addr s (.joinCleanup c)
+      chk (s'.lastJoin c == some (.err .ctxErr)) s'
+    else none
+  | 'L' :: r => do let c ← idx r; step addr s (.leaveStart c)
+  | 'l' :: r => do let _ ← idx r; some s
+  | 'D' :: r =>
+    let str := String.ofList r
+    if str.endsWith "ok" then do
+      let c ← (str.dropEnd 2).toString.toNat?
+      step addr s (.leaveDepart c)
+    else if str.endsWith "se" then do
+      let c ← (str.dropEnd 2).toString.toNat?
+      step addr s (.leaveError c)
+    else if str.endsWith "ce" then do
+      let c ← (str.dropEnd 2).toString.toNat?
+      step addr s (.leaveCancel c)
+    else none
+  | ['I'] => step addr s .invite
+  | ['N'] => step addr s .unrelated
+  | '?' :: r => chk (String.ofList r == bits n s) s
+  | _ => none
+
+def replay (addr : Nat → Nat) (n : Nat) : List String → Nat → St → Except String St
+  | [], _, s => .ok s
+  | t :: ts, k, s => match applyTok addr n s t with
+    | some s' => replay addr n ts (k + 1) s'
+    | none => .error s!"bad@{k}:{t}"
+
+def handle (args : List String) : Option String :=
+  match args with
+  | ["muc", addrs, trace] => do
+    let l ← mapM? String.toNat? (splitList addrs)
+    let addr := fun c => match l[c]? with | some a => a | none => 100000 + c
+    match replay addr l.length (splitList trace) 0 init with
+    | .ok s => pure s!"joined={bits l.length s} upres={s.upres} inv={s.invites}"
+    | .error e => pure e
+  | _ => none
 
 end XmppModel.Driver.C18
